@@ -25,6 +25,38 @@ type Case struct {
 	// the source is named through a symlink with a relative target, from a working
 	// directory in which that relative target names another directory (with outside content)
 	RootLink bool `json:"root_link,omitempty"`
+	// a planted family (the nodes are part of Tree; family 2 adds a link to the outside content):
+	// a link met inside a dereferenced directory that only leaves the tree by way of links of the tree
+	Plant int `json:"plant,omitempty"`
+}
+
+// PlantOutside is the outside content of planted family 2: a link inside the
+// external directory ext/d which, read as text, stays inside the source
+// directory - on disk and at its place in the slug - but leaves it through
+// the links "src -> ." and "up9 -> ." of the tree.
+var PlantOutside = fsx.Tree{
+	{Path: "ext/d/viaup", Kind: "symlink", Target: "../../src/up9/../ext/f"},
+}
+
+func plantNodes(family int) fsx.Tree {
+	switch family {
+	case 1:
+		return fsx.Tree{
+			{Path: "pr9", Kind: "dir", Mode: 0755, Sec: 1500000001},
+			{Path: "pr9/keep", Kind: "file", Content: "IN:keep", Mode: 0644, Sec: 1500000002},
+			{Path: "up9", Kind: "symlink", Target: "."},
+			{Path: "pr9/l9", Kind: "symlink", Target: "../up9/../ext/f"},
+			{Path: "x9", Kind: "symlink", Target: "../src/pr9"},
+		}
+	case 2:
+		return fsx.Tree{
+			{Path: "a9", Kind: "dir", Mode: 0755, Sec: 1500000001},
+			{Path: "a9/X9", Kind: "symlink", Target: "../../ext/d"},
+			{Path: "src", Kind: "symlink", Target: "."},
+			{Path: "up9", Kind: "symlink", Target: "."},
+		}
+	}
+	return nil
 }
 
 type Run struct {
@@ -55,6 +87,9 @@ func Execute(c Case) (*Run, error) {
 	out := tgen.OutsideTree
 	if c.Nested {
 		out = append(append(fsx.Tree{}, out...), tgen.NestedOutside...)
+	}
+	if c.Plant == 2 {
+		out = append(append(fsx.Tree{}, out...), PlantOutside...)
 	}
 	if err := fsx.Materialise(r, out, run.Vars); err != nil {
 		cleanup()
@@ -180,5 +215,24 @@ func Gen(t *rapid.T, outLinks bool) Case {
 		c.Nested = rapid.Bool().Draw(t, "nested")
 	}
 	c.RootLink = rapid.IntRange(0, 5).Draw(t, "rootlink") == 0
+	if outLinks && rapid.IntRange(0, 11).Draw(t, "plant?") == 0 {
+		c.Plant = rapid.IntRange(1, 2).Draw(t, "plant")
+		planted := plantNodes(c.Plant)
+		taken := map[string]bool{}
+		for _, n := range planted {
+			taken[n.Path] = true
+		}
+		keep := append(fsx.Tree{}, planted...)
+		for _, n := range c.Tree {
+			top := strings.SplitN(n.Path, "/", 2)[0]
+			if taken[n.Path] || taken[top] {
+				continue
+			}
+			keep = append(keep, n)
+		}
+		c.Tree = keep
+		c.Nested = false
+		c.Opts.Allow = nil
+	}
 	return c
 }
